@@ -283,20 +283,36 @@ class System:
         return {k: v for k, v in cref.STATS.items() if v}
 
 
-def twin_divergence(system, cfg, post, read_only, observe):
+def twin_divergence(system, cfg, post, read_only, observe, steps=1, events=None):
     """C19 differential: a clone on which the read-only calls were run must be indistinguishable from an
-    untouched clone ONE EVENT LATER (catches hidden state - caches, cursors, padded buckets - that the
-    observation vector cannot see).  Returns None or a description of the first divergence."""
+    untouched clone after the next 1..`steps` events with NO query in between (the observation itself may
+    contain queries, so it is taken only at the end of each event sequence) - catches hidden state (caches,
+    cursors, padded buckets, stale thresholds) that a before/after comparison cannot see at the moment of the
+    query.  `events(cfg, state)` may supply a reduced event menu.  Returns None or the first divergence."""
     q = system.clone(post)
     read_only(q)
-    for ev in system.events(cfg, post):
-        o1, p1 = system.step_one(cfg, post, ev, None)
-        o2, p2 = system.step_one(cfg, q, ev, None)
-        if repr(o1) != repr(o2):
-            return {"event": ev, "untouched": repr(o1)[:200], "queried": repr(o2)[:200]}
-        a, b = observe(p1), observe(p2)
-        if a != b:
-            return {"event": ev, "untouched_obs": repr(a)[:300], "queried_obs": repr(b)[:300]}
+    menu = events or system.events
+
+    def walk(a, b, trail, left):
+        for ev in menu(cfg, a):
+            o1, p1 = system.step_one(cfg, a, ev, None)
+            o2, p2 = system.step_one(cfg, b, ev, None)
+            if repr(o1) != repr(o2):
+                return {"events": trail + [ev], "untouched": repr(o1)[:200], "queried": repr(o2)[:200]}
+            if left > 1:
+                d = walk(p1, p2, trail + [ev], left - 1)
+                if d is not None:
+                    return d
+            else:
+                x, y = observe(p1), observe(p2)
+                if x != y:
+                    return {"events": trail + [ev], "untouched_obs": repr(x)[:300], "queried_obs": repr(y)[:300]}
+        return None
+
+    for n in range(1, steps + 1):
+        d = walk(post, q, [], n)
+        if d is not None:
+            return d
     return None
 
 
